@@ -224,22 +224,7 @@ func runC12(c *core.Ctx) core.Meta {
 			c.ReportAt("R12.1", fn, fn.Pos(), "drain:subscribe-first", "DrainCommandQueue does not subscribe before its first emptiness test: a completion between test and subscription is never signalled")
 		}
 		// every return is guarded by NumCommand()==0
-		empty := CmpCut(func(_ *core.Node, op token.Token, x, y ssa.Value) int {
-			call, isCall := x.(*ssa.Call)
-			if !isCall || core.CalleeFunc(call) == nil || core.CalleeFunc(call).Name() != "NumCommand" {
-				return 0
-			}
-			if z, isC := core.ConstInt(y); !isC || z != 0 {
-				return 0
-			}
-			switch op {
-			case token.EQL, token.LEQ:
-				return 1
-			case token.NEQ, token.GTR:
-				return -1
-			}
-			return 0
-		})
+		empty := queueEmptyCut()
 		for _, r := range g.NodesWhere(func(n *core.Node) bool { _, isR := n.Instr.(*ssa.Return); return isR }) {
 			st1.Instances++
 			okR := g.Guarded(r, empty)
@@ -586,4 +571,24 @@ func runC12(c *core.Ctx) core.Meta {
 		Explanation: "Structural conditions whose absence is the lost wake-up, the data race or the reordering, decided on SSA of amd/driver: capacity of channels targeted by non-blocking sends, the subscribe/test/wait/re-test shape of the drain loop, a guarded-by lockset analysis for five field/mutex pairs, no mixed atomic/plain access, FIFO ownership of the command list, one command at a time per queue (start guard, IsRunning pairing), and the frozen inventory of goroutines, selects, engine runs and signal receivers.",
 		NotDecided:  "liveness under all interleavings (a model-checking question), in particular the engine-exit versus enqueue hand-off between runEngine and runAsync; memory effects between commands",
 		Assumptions: commonAssumptions}
+}
+
+// queueEmptyCut: the edges on which `q.NumCommand() == 0` holds.
+func queueEmptyCut() EdgeCut {
+	return CmpCut(func(_ *core.Node, op token.Token, x, y ssa.Value) int {
+		call, isCall := x.(*ssa.Call)
+		if !isCall || core.CalleeFunc(call) == nil || core.CalleeFunc(call).Name() != "NumCommand" {
+			return 0
+		}
+		if z, isC := core.ConstInt(y); !isC || z != 0 {
+			return 0
+		}
+		switch op {
+		case token.EQL, token.LEQ:
+			return 1
+		case token.NEQ, token.GTR:
+			return -1
+		}
+		return 0
+	})
 }
